@@ -29,11 +29,9 @@ EXPECT_MISSED = {
     "C09-a": "congruence bias of the INTERVAL alignment — a numerical result",
     "C09-b": "SHIFT clamp boundary — value-level",
     # second generation
-    "C05-c": "fdprintf flush boundary `>=` vs `>` at exactly 4096 bytes — a one-value boundary of a size computation",
     "C09-c": "congruence pre-check of INTERVAL against BYMONTH relaxed — number theory of which months a step reaches",
     # third generation
     "C01-h": "skip-ahead in the MINUTELY filler: `M = 59 - (59 - M) % inter` keeps the INTERVAL phase only when INTERVAL divides 60 — an arithmetic identity",
-    "C05-f": "fdprintf flush boundary `>=` vs `>` (same change as C05-c, found independently)",
     "C09-g": "congruence pre-check taken modulo gcd(INTERVAL, 6) instead of 12 — number theory of which months a step reaches (same area as C09-c)",
     "C15-g": "closed formula for the intercalary years whose constant comes out of a truncating division (type IV only) — a numerical result",
     "C17-g": "bias constant 384 -> 34 in the business-day arithmetic (both are -1 mod 5 and 7; the bias also keeps the sum non-negative) — value arithmetic",
